@@ -23,7 +23,7 @@ RULE = ('cases = reply body from an alphabet around the accepted form (True, "Tr
         'repeated, whitespace, JSON true, empty, 1 MB, undecodable bytes) x HTTP status (2xx-5xx) x fault (none, '
         'ConnectTimeout, ReadTimeout, ConnectionError, SSLError, missing client cert / key / CA file) x content type '
         '(form / JSON) x http / https x the check at depth 0-5 under and/or/not/rule: x policy name x URL placeholders x '
-        'targets with nested values and top-level opaque objects. B = the full body x status x content-type x scheme '
+        'targets with nested values and top-level opaque objects. in the random stratum the content-type option may be changed on the living enforcer before a second request; B = the full body x status x content-type x scheme '
         'product at depth 0; R = random combinations. Non-trivial = the body is not exactly True / "True" (must deny) or a '
         'fault is injected; distinct = distinct case.')
 ASSUMPTIONS = ['bodies with unbalanced or repeated surrounding quotes ("True, True", ""True"") are driven and recorded but '
@@ -36,11 +36,11 @@ LEVEL_TEXT = ('The body/status/content-type/scheme product and every listed faul
 LEVEL_NOTE = 'trusted: requests_mock as the transport; the request decoder in the harness'
 PLAN = {'quick': dict(shards=4, wall=70), 'thorough': dict(shards=16, wall=400)}
 MIN = {'evaluations': 800, 'requests_recorded': 500, 'deny_bodies': 300, 'allow_bodies': 50, 'faults_injected': 100,
-       'tls_file_faults': 20}
+       'tls_file_faults': 20, 'content_type_changes_on_living_enforcer': 100}
 ANCHORS = ['oslo_policy._external:HttpCheck.__call__', 'oslo_policy._external:HttpsCheck.__call__',
            'oslo_policy._external:HttpCheck._construct_payload', 'oslo_policy.policy:Enforcer.enforce']
 REQUIRED_ANCHORS = ['oslo_policy._external:HttpCheck.__call__', 'oslo_policy._external:HttpsCheck.__call__']
-N = {'quick': 4000, 'thorough': 200000}
+N = {'quick': 6000, 'thorough': 200000}
 
 BODIES = ['True', '"True"', '""True""', '"True', 'True"', '"""True"""', 'true', 'TRUE', 'True\n', ' True', 'True ', '\tTrue',
           "'True'", 'false', 'False', '', '1', 'yes', 'null', '{"result": true}', '["True"]', 'True True', 'TrueTrue', 'Tru',
@@ -189,6 +189,24 @@ def check_case(ctx, case):
                 got, exc = None, e
             reqs = list(m.request_history)
         ctx.case(case, nontrivial=(bclass == 'deny' or fault != 'none'), stratum=case['s'])
+        if case.get('then_ctype') and fault == 'none':
+            # the operator changes remote_content_type while the enforcer lives: the next request uses the new encoding
+            conf.set_override('remote_content_type', case['then_ctype'], group='oslo_policy')
+            with requests_mock.Mocker() as m2:
+                m2.post(requests_mock.ANY, text='True')
+                try:
+                    enf.enforce(case['name'], make_target(case, []), {'roles': list(roles)})
+                except Exception as e:
+                    ctx.violation('remote-check-raises-without-fault', case, {'second_call': True, 'observed': type(e).__name__})
+                    return
+                r2 = list(m2.request_history)
+            ctx.count('content_type_changes_on_living_enforcer')
+            if len(r2) == 1:
+                ct = r2[0].headers.get('Content-Type', '')
+                if case['then_ctype'] not in ct:
+                    ctx.violation('request-in-wrong-encoding', case, {'configured_now': case['then_ctype'], 'content_type_sent': ct,
+                                                                      'first_call_used': case['ctype']})
+                    return
         ctx.observe('outcomes', '%s/%s->%s' % (fault, bclass, type(exc).__name__ if exc else bool(got)))
         # ---- caller's target untouched ---------------------------------------
         if snapshot(target) != snap0:
@@ -307,7 +325,8 @@ def run(ctx):
                     ctype=rnd.choice(CTYPES), scheme=rnd.choice(['http', 'https']),
                     wraps=[rnd.choice(WRAPS) for _ in range(rnd.randint(0, 5))], name=rnd.choice(NAMES),
                     path=rnd.choice(['/%(name)s/check', '/check', '/v1/%(id)s?x=%(flag)s', '/%(name)s/%(name)s', ':8080/p']),
-                    roles=[r for r in 'ab' if rnd.random() < 0.5], opaque=rnd.random() < 0.5, tls=rnd.random() < 0.4)
+                    roles=[r for r in 'ab' if rnd.random() < 0.5], opaque=rnd.random() < 0.5, tls=rnd.random() < 0.4,
+                    then_ctype=rnd.choice([None, None] + CTYPES))
         check_case(ctx, case)
         if i % 150 == 0:
             ctx.sample(case, 'R')
